@@ -675,6 +675,20 @@ pub fn run_c08(ctx: &Ctx) -> i32 {
                 alphabet.push(Program { entry: Entry::AccessorWrite { contract: c.clone(), write: WriteOp::Remove(k.clone()) }, root: 0, nodes: vec![] });
             }
         }
+        // inside one transaction: overwrite / remove an existing key, then a nested call to the same
+        // contract reads and iterates its storage through the transaction's caches
+        for c in [ad.a.clone(), ad.b.clone(), ad.c.clone()] {
+            for w in [WriteOp::Set(b"pre".to_vec(), b"again".to_vec()), WriteOp::Remove(b"pre".to_vec()), WriteOp::Set(b"k".to_vec(), b"kk".to_vec())] {
+                alphabet.push(Program {
+                    entry: Entry::Execute { sender: ad.poor.clone(), contract: c.clone(), funds: vec![] },
+                    root: 0,
+                    nodes: vec![
+                        Node { writes: vec![w.clone()], subs: vec![Sub { id: 100, payload: vec![], reply_on: Mode::Never, msg: Msg::Call { target: Target::SelfC, funds: vec![], node: 1 }, reply: None }], ..Default::default() },
+                        Node { writes: vec![w], ..Default::default() },
+                    ],
+                });
+            }
+        }
         alphabet.push(Program { entry: Entry::SendHelper { from: ad.rich.clone(), to: ad.b.clone(), coins: vec![("x".into(), 1)] }, root: 0, nodes: vec![] });
         alphabet.push(Program { entry: Entry::User { sender: ad.rich.clone(), msg: Msg::Delegate { validator: VALIDATOR.into(), denom: "TOKEN".into(), amount: 1 } }, root: 0, nodes: vec![] });
         alphabet.push(Program { entry: Entry::Instantiate { sender: ad.rich.clone(), code: 1, funds: vec![], label: "another".into(), admin: None }, root: 0, nodes: vec![Node { writes: vec![WriteOp::Set(b"pre".to_vec(), b"another".to_vec())], ..Default::default() }] });
